@@ -297,6 +297,8 @@ def analytic_case(ctx, qp, rng, gi):
     has_sxdg = any(o.name in ("Adjoint(SX)", "SX") for o in ops)
     base_fp = (tuple(info["ops"]), repr(dw), tab)
     prep_perm = stateprep_on_permuted_labels(ops, order)
+    # no operation reaches stim (only barriers / snapshots / global phases / BasisState of zeros) and the device has no wires: no qubit is allocated
+    empty_stim = dw is None and all(o.name in ("Barrier", "Snapshot", "GlobalPhase") or (o.name == "BasisState" and not np.any(np.asarray(o.data[0]))) for o in ops)
 
     def layout_state(m):
         lay, tw = device_layout(qp, dev, ops, m)
@@ -314,9 +316,6 @@ def analytic_case(ctx, qp, rng, gi):
         def f(r, exp):
             if tab:
                 return "probs:tableau-true:unnormalised" if r.shape == exp.shape and abs(float(np.sum(r)) - 1) > 1e-6 else None
-            # a wire-order confusion permutes the entries of the distribution
-            if r.shape == exp.shape and np.max(np.abs(np.sort(r) - np.sort(exp))) < 1e-5:
-                return "probs:tableau-false:wire-order"
             return None
         return f
 
@@ -330,8 +329,10 @@ def analytic_case(ctx, qp, rng, gi):
             tn = type(e).__name__
             if has_sxdg and "Gate not found: 'SX" in str(e):
                 mech = "gate:SX:stim-name"
-            elif kind == "probs" and not tab and mode == "superset" and isinstance(e, ValueError) and "reshape" in str(e):
-                mech = "probs:tableau-false:unused-device-wires"
+            elif kind in ("probs", "probs-op", "expval-projector") and not tab and isinstance(e, ValueError) and "reshape" in str(e):
+                mech = "probs:tableau-false:state-layout"
+            elif empty_stim:
+                mech = "empty-circuit:no-qubits-allocated"
             else:
                 mech = f"raises:{kind}:{tn}"
             cs.viol("analytic.value", f"{desc} raised {tn}: {str(e)[:200]}", mech, extra={"measurement": desc})
@@ -347,6 +348,11 @@ def analytic_case(ctx, qp, rng, gi):
             mech = extra_mech(r, exp) if extra_mech else None
             if mech is None and prep_perm:
                 mech = "stateprep:label-permutation"
+            if mech is None and empty_stim:
+                mech = "empty-circuit:no-qubits-allocated"
+            if mech is None and not tab and kind in ("probs", "probs-op", "expval-projector"):
+                # tableau=False branch of _measure_probability: a fresh simulator's state vector is read with the tape's wire order
+                mech = "probs:tableau-false:state-layout"
             cs.viol("analytic.value", f"{desc}: default.clifford returned {np.round(r, 6).tolist() if r.size <= 16 else r.shape} but exact simulation gives "
                                       f"{np.round(exp, 6).tolist() if exp.size <= 16 else exp.shape} (device wires {dw}, tableau={tab})",
                     mech or f"value:{kind}", r, exp, extra={"measurement": desc})
@@ -672,10 +678,17 @@ def shadow_case(ctx, qp, rng, gi):
     ops, nontriv = gen_circuit(qp, rng, labels, int(rng.integers(1, 4 * n + 2)), allow_prep=False)
     ops = [qp.Identity(w) for w in labels] + [o for o in ops if o.name not in ("Snapshot", "Barrier")]
     order = labels
+    ghz = n >= 2 and rng.random() < 0.5
+    if ghz:  # entangled state with a two-qubit stabilizer: correlations between the qubits of one snapshot matter
+        ops = [qp.Identity(w) for w in labels] + [qp.Hadamard(0)] + [qp.CNOT([i, i + 1]) for i in range(n - 1)]
+        nontriv = True
     psi = ref_state(qp, ops, order)
     k = int(rng.integers(1, n + 1))
     ws = sorted(int(x) for x in rng.choice(n, size=k, replace=False))
     word = {w: "XYZ"[int(rng.integers(3))] for w in ws}
+    if ghz:
+        ws = sorted(int(x) for x in rng.choice(n, size=2, replace=False))
+        word = {w: "Z" for w in ws}
     mu = float(np.vdot(psi, pauli_full(word, order) @ psi).real)
     shots = 1500 if ctx.quick else 4000
     info = {"family": "shadow", "ops": describe(ops), "word": {str(k_): v for k_, v in word.items()}, "shots": shots}
